@@ -162,6 +162,21 @@ def _rand_opts(rng, kind):
         o['check_num_steps'] = bool(rng.random() < 0.5)
     if rng.random() < 0.3:
         o['scale'] = float(rng.uniform(1.0, 12.0))
+    # magnitude classes: steps that underflow to exactly 0.0 although the base step is not 0 (tiny base step, huge ratio,
+    # far negative offset): "zero steps are dropped" is decided step by step
+    if rng.random() < 0.06:
+        which = int(rng.integers(0, 3))
+        if which == 0:
+            o['base_step'] = float(10.0 ** rng.uniform(-320, -290))
+            o['use_exact_steps'] = False
+        elif which == 1 and kind == 'max':          # (descending sequences only: an ascending one overflows, loudly)
+            o['step_ratio'] = float(10.0 ** rng.uniform(15, 30))
+            o['num_steps'] = int(rng.integers(10, 25))
+        elif which == 1:
+            o['base_step'] = float(10.0 ** rng.uniform(-320, -290))
+            o['use_exact_steps'] = False
+        else:
+            o['offset'] = int(rng.choice([-1100, -900]))
     # numeric options given as Python ints where the value is integral (step_ratio=2, base_step=1, step_nom=2, scale=3)
     for key in ('step_ratio', 'base_step', 'step_nom', 'scale'):
         if key in o and float(o[key]).is_integer() and rng.random() < 0.5:
